@@ -8,6 +8,7 @@ import (
 	"fmt"
 	"math"
 	"os"
+	"sort"
 	"strconv"
 	"strings"
 
@@ -47,6 +48,43 @@ func addRes(e string) string {
 		return "underpriced"
 	}
 	return "other:" + strings.ReplaceAll(e, " ", "_")
+}
+
+// senderNum strips the "s" the driver puts in front of sender numbers.
+func senderNum(a string) uint64 { return u(strings.TrimPrefix(a, "s")) }
+
+// stateLine dumps the scheduler's internal state for the implementation-level model:
+// max heap content, the scheduled map and every sender heap (sequence number, ids).
+func stateLine(q *txpool.VerifQueue) string {
+	if d := q.MaxHeapCheck(); d != "" {
+		return "st BROKEN " + strings.ReplaceAll(d, " ", "_")
+	}
+	sched := q.Scheduled()
+	var sk []uint64
+	byNum := map[uint64]string{}
+	for a := range sched {
+		sk = append(sk, senderNum(a))
+		byNum[senderNum(a)] = a
+	}
+	sort.Slice(sk, func(i, j int) bool { return sk[i] < sk[j] })
+	var sf []uint64
+	for _, a := range sk {
+		sf = append(sf, a, sched[byNum[a]])
+	}
+	snd := q.Senders()
+	var nk []uint64
+	for a := range snd {
+		nk = append(nk, senderNum(a))
+		byNum[senderNum(a)] = a
+	}
+	sort.Slice(nk, func(i, j int) bool { return nk[i] < nk[j] })
+	var nf []uint64
+	for _, a := range nk {
+		h := snd[byNum[a]]
+		nf = append(nf, a, h.Seq, uint64(len(h.IDs)))
+		nf = append(nf, h.IDs...)
+	}
+	return fmt.Sprintf("st %s %s %s", ids(q.MaxHeap()), ids(sf), ids(nf))
 }
 
 // runImpl executes the ops on the real queue and returns the annotated lines for the model.
@@ -96,6 +134,11 @@ func runImpl(ops []string) (lines []string, panicked string) {
 		if panicked != "" {
 			break
 		}
+		// state-by-state tie: the implementation's max heap, scheduled map and sender heaps
+		// after this operation, compared by the model driver with the implementation-level model
+		if q != nil && w[0] != "all" && w[0] != "st" {
+			lines = append(lines, stateLine(q))
+		}
 	}
 	return
 }
@@ -124,6 +167,12 @@ func genCase(r *hlib.Rng, nops int, res *hlib.Result) []string {
 		state[i] = base[i]
 	}
 	seqOf := func(a int) uint64 {
+		// rarely a sequence number far from the sender's cluster (after 2^64-1 was consumed the
+		// sender's heap is gone and a small sequence number is accepted again: the wrap-around case
+		// the MaxUint64 guards exist for)
+		if r.Chance(1, 16) {
+			return uint64(r.Intn(3))
+		}
 		off := uint64(r.Intn(6))
 		if base[a] > math.MaxUint64-off {
 			return math.MaxUint64
@@ -137,6 +186,27 @@ func genCase(r *hlib.Rng, nops int, res *hlib.Result) []string {
 	ops := []string{fmt.Sprintf("new %d", capacity)}
 	nextID := uint64(1)
 	var live []uint64
+	if r.Chance(1, 40) {
+		// Directed prefix for the MaxUint64 guards: a sender's transaction at 2^64-1 is scheduled,
+		// leaves the queue (used, or the queue is cleared) and the same sender comes back at 0
+		// while the pass is still open; 0 is not the successor of 2^64-1.
+		res.Count("scenario:wrap")
+		ops = append(ops, fmt.Sprintf("add 1 0 %d %d %d", uint64(math.MaxUint64), r.Intn(4), uint64(math.MaxUint64)),
+			fmt.Sprintf("schedule %d", 1+r.Intn(3)))
+		if r.Bool() {
+			ops = append(ops, "used 1")
+		} else {
+			ops = append(ops, "clear")
+		}
+		kind := "add"
+		if r.Bool() {
+			kind = "qadd"
+		}
+		ops = append(ops, fmt.Sprintf("%s 2 0 0 %d 0", kind, r.Intn(4)), "schedule 2")
+		base[0], state[0] = 0, 0
+		nextID = 3
+		live = append(live, 2)
+	}
 	for i := 0; i < nops; i++ {
 		k := r.Intn(100)
 		switch {
@@ -146,11 +216,15 @@ func genCase(r *hlib.Rng, nops int, res *hlib.Result) []string {
 			if r.Chance(1, 8) {
 				ss = seqOf(a)
 			}
+			q := seqOf(a)
+			if r.Chance(1, 16) {
+				ss = q // a sender seen afresh at exactly this sequence number
+			}
 			kind := "add"
 			if r.Bool() {
 				kind = "qadd"
 			}
-			ops = append(ops, fmt.Sprintf("%s %d %d %d %d %d", kind, nextID, a, seqOf(a), r.Intn(4), ss))
+			ops = append(ops, fmt.Sprintf("%s %d %d %d %d %d", kind, nextID, a, q, r.Intn(4), ss))
 			live = append(live, nextID)
 			nextID++
 			res.Count("op:" + kind)
@@ -193,6 +267,16 @@ func signature(detail string) string {
 		return "panic-reset"
 	case strings.Contains(detail, "panicked"):
 		return "panic"
+	case strings.Contains(detail, "impl-model fault"):
+		return "impl-model-fault"
+	case strings.Contains(detail, "does not refine"):
+		return "impl-model-refinement"
+	case strings.Contains(detail, "state max-heap"):
+		return "state-maxheap-mismatch"
+	case strings.Contains(detail, "state scheduled"):
+		return "state-scheduled-mismatch"
+	case strings.Contains(detail, "state senders"):
+		return "state-senders-mismatch"
 	case strings.Contains(detail, "schedule"):
 		return "schedule-mismatch"
 	case strings.Contains(detail, "contents"):
@@ -213,7 +297,7 @@ func main() {
 	flag.Parse()
 
 	res := hlib.NewResult("txpooldrv", *seed)
-	res.Rule = "random op histories (add/qadd/schedule/reset/used/forward/clear/all) over 1-3 senders with sequence numbers clustered at 0, 7, 2^63-3.., 2^64-4..; priorities 0-3 (ties), capacity 1-15, limits 0-4; a case is non-trivial when at least one schedule returned a transaction; distinct by op list"
+	res.Rule = "random op histories (add/qadd/schedule/reset/used/forward/clear/all) over 1-3 senders with sequence numbers clustered at 0, 7, 2^63-3.., 2^64-4.. (rarely 0-2 for any sender: wrap-around); priorities 0-3 (ties), capacity 1-15, limits 0-4; a case is non-trivial when at least one schedule returned a transaction; distinct by op list"
 	runOne := func(ops []string, caseSeed uint64, minimize bool) {
 		d, n := check(ops)
 		res.Cases++
